@@ -18,12 +18,13 @@
 //
 // Binary Grammar
 //
-// binary ::= b b1 b0 <binary-data> binary
+// binary ::= x41 b1 b0 <binary-data> binary
 //        ::= B b1 b0 <binary-data>
 //        ::= [x20-x2f] <binary-data>
+//        ::= [x34-x37] b0 <binary-data>
 //
 // Binary data is encoded in chunks. The octet x42 ('B') encodes the final chunk
-// and x62 ('b') represents any non-final chunk. Each chunk has a 16-bit // length value.
+// and x41 ('A') represents any non-final chunk. Each chunk has a 16-bit // length value.
 // 	len = 256 * b1 + b0
 //
 // short binary
@@ -42,10 +43,13 @@ import (
 const (
 	_binaryChunkSize      = 4096
 	_binaryFinalChunk     = byte('B')  // final chunk
-	_binaryChunk          = byte('b')  // non-final chunk
+	_binaryChunk          = byte('A')  // non-final chunk (x41)
 	_binaryShortLenTagMin = byte(0x20) // 1-byte length binary min
 	_binaryShortLenTagMax = byte(0x2f) // 1-byte length binary max
 	_binaryShortTagMaxLen = int(_binaryShortLenTagMax - _binaryShortLenTagMin)
+
+	_binaryMiddleLenTagMin = byte(0x34) // 2-byte length binary min (length 0-1023)
+	_binaryMiddleLenTagMax = byte(0x37) // 2-byte length binary max
 )
 
 var (
@@ -155,17 +159,30 @@ func binaryChunkTag(tag byte) bool {
 	return tag == _binaryFinalChunk || tag == _binaryChunk
 }
 
+func binaryMiddleTag(tag byte) bool {
+	return tag >= _binaryMiddleLenTagMin && tag <= _binaryMiddleLenTagMax
+}
+
 func binaryEndTag(tag byte) bool {
-	return tag == _binaryFinalChunk || binaryShortTag(tag)
+	return tag == _binaryFinalChunk || binaryShortTag(tag) || binaryMiddleTag(tag)
 }
 
 func binaryTag(tag byte) bool {
-	return binaryShortTag(tag) || binaryChunkTag(tag)
+	return binaryShortTag(tag) || binaryMiddleTag(tag) || binaryChunkTag(tag)
 }
 
 func getBinaryLen(reader ByteRuneReader, tag byte) (int, error) {
 	if binaryShortTag(tag) {
 		return int(tag - _binaryShortLenTagMin), nil
+	}
+
+	if binaryMiddleTag(tag) {
+		bs := make([]byte, 1)
+		_, err := io.ReadFull(reader, bs)
+		if err != nil {
+			return 0, err
+		}
+		return int(tag-_binaryMiddleLenTagMin)<<8 + int(bs[0]), nil
 	}
 
 	bs := make([]byte, 2)
